@@ -318,6 +318,9 @@ class SerdesTopo(TopoModel):
                 if stored('shared', 'LOADED')[0] != want[0]:
                     v.append((f'content/{fmt.name}/topology-load-new-id', f'{_diff(want[0], stored("shared", "LOADED")[0])} {ctx}'))
                 with tempfile.NamedTemporaryFile('w', suffix='.graph', encoding='utf-8') as f:
+                    # the file already holds an older, LONGER save of a model (saving again replaces it)
+                    f.write(text + '\n' + text)
+                    f.flush()
                     self.t.serialize(file_name=f.name, fmt=fmt)
                     world.shared_importer().delete_graph(graph_id=gid)
                     t3 = cls()
